@@ -447,7 +447,7 @@ func main() {
 		return
 	}
 	defer drv.Close()
-	run.Res.Rule = "every directed graph (self loops allowed) on N<=3 (quick) / N<=4 (thorough) fragments, each with several random decorations (type condition I/A/B, 0-2 pool selections per fragment, spread placement top-level / inside sub-selection / inside inline fragment, operation spreading F0 and a random subset); operations declare and the pool uses variables $v $w $u; rules OverlappingFieldsCanBeMerged, NoFragmentCycles, NoUnusedFragments, NoUndefinedVariables, NoUnusedVariables, VariablesInAllowedPosition each run alone; plus family cyclicMixedExclusive (harness/cycfam): tables of 2-3 fragments on A / B / I spread side by side below `i`, bodies = subsets of { x: c { ...Fj }, ...Fj, n } (two-fragment tables: 500 of 8649 quick / all thorough; three-fragment tables: seeded random); non-trivial = the graph has at least one edge or some rule rejects or the document is of the second family; distinct by document text"
+	run.Res.Rule = "every directed graph (self loops allowed) on N<=3 (quick) / N<=4 (thorough) fragments, each with several random decorations (type condition I/A/B, 0-2 pool selections per fragment, spread placement top-level / inside sub-selection / inside inline fragment, operation spreading F0 and a random subset); operations declare and the pool uses variables $v $w $u; rules OverlappingFieldsCanBeMerged, NoFragmentCycles, NoUnusedFragments, NoUndefinedVariables, NoUnusedVariables, VariablesInAllowedPosition each run alone; plus family cyclicMixedExclusive (harness/cycfam): tables of 2-3 fragments on A / B / I spread side by side below `i`, bodies = subsets of { x: c { ...Fj }, ...Fj, n } (two-fragment tables: 500 of 8649 quick / all thorough; three-fragment tables: seeded random); plus family collidingNames (colliding.go): fragment NAMES from an alphabet in which different pairs of names concatenate (given or sorted order; separators _, none, __) to the same string: fixed four-fragment shapes, every collision quadruple of the alphabet (conflict-free pair spread side by side first, conflicting pair x: n / x: s on the same parent later, at spread depth 0-3, six layouts), and random graphs of 3-5 fragments with genDoc's decorations and such names; non-trivial = the graph has at least one edge or some rule rejects or the document is of the second or third family; distinct by document text"
 
 	desc := schemaDesc()
 	built, err := gq.Build(desc, gq.Hooks{
@@ -508,7 +508,7 @@ func main() {
 			return o
 		}
 		rejected := len(ov.Errs) > 0 || len(cy.Errs) > 0 || len(un.Errs) > 0
-		run.Case(c.Src, strings.Contains(c.Topo, ">") || rejected || strings.HasPrefix(c.Topo, cycfam.Tag), map[string]interface{}{"src": c.Src, "topo": c.Topo,
+		run.Case(c.Src, strings.Contains(c.Topo, ">") || rejected || strings.HasPrefix(c.Topo, cycfam.Tag) || strings.HasPrefix(c.Topo, collTag), map[string]interface{}{"src": c.Src, "topo": c.Topo,
 			"overlap_errors": len(ov.Errs), "cycle_errors": len(cy.Errs), "unused_errors": len(un.Errs), "counters": ov.Counters})
 		run.Tag(fmt.Sprintf("overlap:%v", verdict(len(ov.Errs))))
 		for _, t := range c.Tags {
@@ -516,6 +516,9 @@ func main() {
 		}
 		if strings.HasPrefix(c.Topo, cycfam.Tag) && len(ov.Errs) > 0 {
 			run.Tag(cycfam.Tag + ":overlap-conflict-reported")
+		}
+		if strings.HasPrefix(c.Topo, collTag) && len(ov.Errs) > 0 {
+			run.Tag(collTag + ":overlap-conflict-reported")
 		}
 		run.Tag(fmt.Sprintf("cycles:%v", verdict(len(cy.Errs))))
 		run.Tag(fmt.Sprintf("unused:%v", verdict(len(un.Errs))))
@@ -693,6 +696,34 @@ func main() {
 		d := cycfam.Random(cyclicVocab, r, nf)
 		one(caseT{Src: d.Src, Topo: fmt.Sprintf("%s:random N=%d", cycfam.Tag, nf), Tags: d.Tags})
 	}
+	// ---- family collidingNames (colliding.go): fragment names that collide under concatenation. The fixed shapes, then
+	// every collision quadruple of the alphabet with several draws, then random graphs with names of the alphabet
+	nColl := 0
+	if os.Getenv("VERIF_C02OVERLAP_ONLY") != "cyclic" {
+		for _, d := range collidingFixed() {
+			if run.TooManyViolations() {
+				break
+			}
+			one(caseT{Src: d.Src, Topo: d.Topo, Tags: d.Tags})
+			nColl++
+		}
+		perColl, takeTopo := run.N(4, 60), run.N(300, 20000)
+		for ci, c := range collAll {
+			for k := 0; k < perColl && !run.TooManyViolations(); k++ {
+				d := collidingPairs(hx.Fork(run.Seed^0xC011D0, ci*1000+k), c)
+				one(caseT{Src: d.Src, Topo: d.Topo, Tags: d.Tags})
+				nColl++
+			}
+		}
+		for k := 0; k < takeTopo && !run.TooManyViolations(); k++ {
+			r := hx.Fork(run.Seed^0xC011D1, k)
+			d := collidingTopo(r, r.Range(3, 5))
+			one(caseT{Src: d.Src, Topo: d.Topo, Tags: d.Tags})
+			nColl++
+		}
+	}
+	run.Res.Extra["collidingNames_collision_quadruples_in_alphabet"] = len(collAll)
+	run.Res.Extra["collidingNames_documents"] = nColl
 	if inflight != "" {
 		os.Remove(inflight)
 	}
